@@ -107,7 +107,9 @@ def run_impl(case):
         # a plain Graph only when nothing needs a dataset (GRAPH on a plain Graph is an error by design in rdflib)
         g = (G.to_rdflib_dataset(ds) if ds["named"] or ds.get("union") or "elt_graph" in st or "graph_var" in st
              or "graph_const" in st or "(graph " in G.sx_query(q) else G.to_rdflib_graph(ds))
-        got = G.read_rdflib_result(g.query(pq))
+        # the two ways users run a query: a prepared Query object, or the text (parsed again by the processor)
+        got = G.read_rdflib_result(g.query(pq) if len(text) % 4 else g.query(text))
+        st["api_prepared" if len(text) % 4 else "api_text"] = 1
         impl_line = _canon(got, star)
     except Exception as e:  # the fragment never raises in the specification
         got, impl_line = {"error": type(e).__name__}, "error " + type(e).__name__
